@@ -119,7 +119,7 @@ class IndividualAddress(BaseAddress):
     def __init__(self, address: IndividualAddressableType) -> None:
         """Initialize IndividualAddress class."""
         if isinstance(address, int):
-            self.raw = address
+            self.raw = int(address)  # a plain int - not a bool or an IntEnum member
         elif isinstance(address, IndividualAddress):
             self.raw = address.raw
         elif isinstance(address, str):
@@ -241,7 +241,7 @@ class GroupAddress(BaseAddress):
     def __init__(self, address: GroupAddressableType) -> None:
         """Initialize GroupAddress class."""
         if isinstance(address, int):
-            self.raw = address
+            self.raw = int(address)  # a plain int - not a bool or an IntEnum member
         elif isinstance(address, GroupAddress):
             self.raw = address.raw
         elif isinstance(address, str):
